@@ -22,7 +22,7 @@ import scen_sbm as S
 import mixgen
 
 META = {
-    'text': 'Theorems (Lean 4, for EVERY library, particle and input; the model carries the code variant of the two defect sites and the harness determines which variant the tree under test is): over a model of the call structure of dbm.FluidParticle / dbm.InsolubleParticle (which library routine each method calls with which arguments and how the answers are combined) return_all equals the tuple assembled from the individual methods for gas and liquid particles and for inert particles unconditionally, and for mixed-phase particles under the stated hypotheses (flash result independent of the warm-start K; the two defect conditions excluded); for the REPAIRED text of the two sites the full statement (single hypothesis: flash independent of K) is proved; for the code as first read the full statement is REFUTED in Lean by concrete libraries (individual methods test the number of zero entries of the liquid row instead of the liquid total; the single-phase-gas viscosity branch reads the liquid row). The model is tied to the real code by oracle-table correspondence (recorded dbm_f / seawater / flash calls replayed through the model: same questions, same outputs, same cache) and the two real tuples are compared directly on every generated case.',
+    'text': 'Theorems (Lean 4, for EVERY library, particle and input; the model carries the code variant of the two former defect sites, the harness determines on every run which variant the tree under test is — evidence field code_variant; since commit eece3d5 it is the REPAIRED one, for which the claimed theorem is the FULL statement return_all_eq_individual): over a model of the call structure of dbm.FluidParticle / dbm.InsolubleParticle (which library routine each method calls with which arguments and how the answers are combined) return_all equals the tuple assembled from the individual methods for gas and liquid particles and for inert particles unconditionally, and for mixed-phase particles under the stated hypotheses (flash result independent of the warm-start K; the two defect conditions excluded); for the REPAIRED text of the two sites the full statement (single hypothesis: flash independent of K) is proved; for the code as first read the full statement is REFUTED in Lean by concrete libraries (individual methods test the number of zero entries of the liquid row instead of the liquid total; the single-phase-gas viscosity branch reads the liquid row). The model is tied to the real code by oracle-table correspondence (recorded dbm_f / seawater / flash calls replayed through the model: same questions, same outputs, same cache) and the two real tuples are compared directly on every generated case.',
     'note': 'Trusted: Lean kernel + 3 standard axioms; the hand transcription Model/Particle09.lean (validated each run by the oracle-table correspondence on every generated case); recorders installed by monkeypatching dbm.dbm_f / dbm.seawater / FluidMixture.equilibrium. NOT modelled: the equations of state, the flash and the particle correlations themselves (library parameters of the model); fp_type > 2. The hypothesis "flash result independent of the warm-start K" holds numerically only to the flash tolerance, so mixed-phase tuples are compared at TOL[flash_fugacity].',
     'technique': 'Lean 4 proof over a hand-written model of the call structure, generic in the library and in the monad + oracle-table correspondence on recorded library calls + direct comparison of the two real tuples',
 }
@@ -46,6 +46,20 @@ INERT_METHODS = ['return_all', 'particle_shape', 'diameter', 'density', 'slip_ve
 IBUNDLE = ['particle_shape', 'diameter', 'density', 'slip_velocity', 'surface_area', 'heat_transfer']
 FIELDS = ['shape', 'de', 'rho_p', 'us', 'A', 'Cs', 'beta', 'beta_T']
 IFIELDS = ['shape', 'de', 'rho_p', 'us', 'A', 'beta_T']
+
+
+def extra(ctx):
+    v = getattr(ctx, 'code_variant', None)
+    if v is None:
+        return None
+    rep = not v['zeroEntryTest'] and not v['gasViscLiquidRow']
+    return {'code_variant': {'zeroEntryTest': bool(v['zeroEntryTest']), 'gasViscLiquidRow': bool(v['gasViscLiquidRow']),
+                             'name': 'repaired' if rep else 'as first read (defect present)'},
+            'claimed_theorem': ('TamocV.Props.C09.return_all_eq_individual (FULL statement: every library with the shape contract, every '
+                                'particle, cache and input; single hypothesis FlashStable for mixed-phase particles) + '
+                                'inert_return_all_eq_individual (full, unconditional)') if rep else
+                               ('TamocV.Props.C09.return_all_eq_individual_partial (defect conditions excluded by hypothesis) + '
+                                'not_return_all_eq_individual (the full statement is refuted for this tree)')}
 
 
 def audit_files():
@@ -526,28 +540,54 @@ def mu_p_of_return_all(table):
     return None
 
 
-def visc_row_check(ctx, cases):
-    """defect (b): FluidParticle.viscosity reads the liquid row in the single-phase-gas branch.  The particle
-    viscosity is NOT a component of the tuple C09 compares, and for fp_type = 2 the status is forced to -1,
-    for which the library correlations ignore mu_p — so this is observed and reported, not a C09 violation."""
+def intermediate_check(ctx, cases):
+    """the particle properties return_all computes but does not return (particle viscosity, interfacial tension,
+    fugacities) are visible at the library boundary: they are the arguments return_all hands to us_ellipsoid /
+    xfer_* / particle_shape / sw_solubility.  The individual methods `viscosity`, `interface_tension`, `fugacity`
+    (named in the property's anchors) must return the same values.  This is where defect (b) — the single-phase-gas
+    viscosity branch reading the liquid row — is visible; with the present correlations it does not reach the
+    returned tuple (fp_type 2 forces status -1, for which the correlations ignore mu_p)."""
     n = 0
-    first = None
     for c in cases:
-        if c['kind'] != 'fluid' or c['descr']['fp_type'] != 2:
+        if c['kind'] != 'fluid':
             continue
-        v = c['res']['viscosity']['out']
-        mu_ra = mu_p_of_return_all(c['res']['return_all']['table'])
-        if isinstance(v, Raised) or mu_ra is None:
+        res = c['res']
+        tab = res['return_all']['table']
+        if isinstance(res['return_all']['out'], Raised):
             continue
-        tol = TOL['flash_fugacity']
-        if not close(v[0], mu_ra, tol):
+        mixed = c['descr']['fp_type'] == 2
+        tol = TOL['flash_fugacity'] if mixed else 1e-12
+        fo, mi0, mi1 = flash_outcome(res) if mixed else (None, None, None)
+        nc = len(c['x']['m'])
+        inter = {}
+        mu_ra = mu_p_of_return_all(tab)
+        if mu_ra is not None:
+            inter['viscosity'] = mu_ra
+        for name, args, _r in tab:
+            if name == 'particle_shape':
+                inter['interface_tension'] = args[4]
+            elif name == 'sw_solubility':
+                inter['fugacity'] = list(args[:nc])
+        for prop, v_ra in inter.items():
+            o = res[prop]['out']
+            if isinstance(o, Raised):
+                continue
             n += 1
-            if first is None:
-                first = dict(particle=c['descr'], inputs=c['x'], viscosity_method=v[0], mu_p_used_by_return_all=mu_ra)
-    ctx.count('FluidParticle.viscosity() != mu_p used inside return_all (outside the C09 tuple)', n)
-    if first is not None:
-        ctx.notes.append('observed (NOT a component of the tuple C09 compares): FluidParticle.viscosity differs from the particle '
-                         'viscosity return_all hands to the library in %d mixed-phase cases; first: %r' % (n, first))
+            if not close(o[0], v_ra, tol):
+                if prop == 'viscosity' and fo == 'gas':
+                    key = 'single-phase-gas-viscosity-row'
+                    what = ('mixed-phase particle whose flash returns gas only: FluidParticle.viscosity returns the LIQUID-row viscosity '
+                            '(row [1,0]) while return_all uses the gas row')
+                elif fo == 'mix' and any(v == 0. for v in mi1):
+                    key = 'mixed-phase-zero-entry-branch'
+                    what = ('mixed-phase particle with a zero-mass component: the individual methods take the single-phase-gas branch '
+                            '(np.sum(mi[1,:] == 0) counts zero entries) and disagree with return_all')
+                else:
+                    key = 'bundle-ne-individual:fluid:' + prop
+                    what = 'FluidParticle.%s returns a value different from the one return_all computes and hands to the library' % prop
+                ctx.violation(key, what, {'particle': c['descr'], 'inputs': c['x'], 'flash': fo, 'property': prop,
+                                          'individual_method': o[0], 'used_inside_return_all': v_ra})
+    ctx.count('intermediate properties compared (viscosity / interface_tension / fugacity vs the values inside return_all)', n)
 
 
 def library_contracts(ctx, cases, r):
@@ -595,6 +635,11 @@ def library_contracts(ctx, cases, r):
 def run(ctx, lean_ok):
     r = ctx.rng
     detect_code_variant(ctx)
+    repaired = not CODE['zeroEntryTest'] and not CODE['gasViscLiquidRow']
+    ctx.code_variant = dict(CODE)
+    ctx.oblige('the tree under test has the REPAIRED text of both defect sites (liquid-total test; gas-row viscosity): the '
+               'full-strength theorem TamocV.Props.C09.return_all_eq_individual is the one that applies to it', repaired,
+               'detected variant %r: the witnesses of TamocV.Props.C09.zero_entry_density / viscosity_row_witness reproduce on the real code' % (CODE,))
     nfl = ctx.n(130, 2500)
     nin = ctx.n(60, 1500)
     slow_budget = ctx.n(0, 20)      # mixed-phase states whose flash takes 60-250 ms (stability analysis at its iteration limit)
@@ -729,7 +774,7 @@ def run(ctx, lean_ok):
                                        'return_all': ra, 'individual': ind,
                                        'differing': [(fields[j], a, b) for j, a, b in diffs]})
     ctx.notes.append('%d of %d cases with differing tuples' % (nviol, len(cases)))
-    visc_row_check(ctx, cases)
+    intermediate_check(ctx, cases)
     library_contracts(ctx, cases, r)
     for k, lst in sorted(raises.items()):
         d, x, text = lst[0]
